@@ -8,6 +8,7 @@
 -/
 import PyTough.Model.ListingNav
 import PyTough.Proofs.ListingNav
+import PyTough.Proofs.ListingSeriesNavFrame
 
 namespace Props.C07
 open Py Model.Nav Proofs.Nav
@@ -54,6 +55,78 @@ theorem stale_cells_witness :
       run staleNav lt distInt [] [] [.index 2, .index 1] v0 = .ok s ∧
       setIndex staleNav (staleNav.idx s) v0 = .ok f ∧ f ≠ s :=
   ⟨(0, 100), (1, 300), (1, 100), by decide, by decide, by decide, by decide⟩
+
+/-! ### the whole-file reader: `LoadSetsIndex` is a theorem, and `load` looks at the previous state only through the tables
+
+  `Model.Listing.fileNav rd` is the navigation instance of the whole-file model (set_index = seek to `_fullpos[j]`, set
+  `_index`, read_tables — every simulator family).  For it the hypothesis `LoadSetsIndex` of the theorems above is proved, so
+  the bounds theorems hold for every listing file without any per-file check; of `Covers` what remains per file is only
+  whether re-reading overwrites every CELL of every table. -/
+
+open Model.Listing in
+/-- For every file and every simulator: first/last/next/prev/index=i all go through `set_index`, and `set_index j` leaves
+    `_index = j` — read_tables and every method below it (read_header, read_table_*, skip_table_*, next_table_*, …) never
+    assign `_index`. -/
+theorem file_load_sets_index (rd : Rd) : LoadSetsIndex (fileNav rd) :=
+  Proofs.SeriesNav.fileNav_loadSetsIndex rd
+
+open Model.Listing in
+/-- For every file: what `set_index j` leaves does not depend on the file position, the index, the time or the step the
+    reader showed before (it seeks and sets the index first; read_header overwrites time and step before anything reads
+    them).  So `Covers` can only fail through table cells that are not overwritten (`stale_cells_witness`) — that part
+    genuinely depends on the file (rows missing at a result time) and stays a per-file check. -/
+theorem file_load_ignores_cursor_time_step (rd : Rd) (j : Nat) (s : Rd) (p : Pos) (i : Int) (t : FVal) (st : Step) :
+    (fileNav rd).load j { s with pos := p, index := i, time := t, step := st } = (fileNav rd).load j s := by
+  have h1 := Proofs.SeriesNav.load_ignores_time_step rd j { s with pos := p, index := i } t st
+  have h2 := Proofs.SeriesNav.load_ignores_pos_index rd j s p i
+  exact h1.trans h2
+
+open Model.Listing in
+/-- For every file, with NO per-file hypothesis: after any sequence of successful actions on an opened reader the reported
+    index lies in `0 ≤ index < n`. -/
+theorem file_index_in_range (rd : Rd)
+    (lt : T → T → Bool) (dist : T → T → T) (times : List T) (steps : List Int)
+    (u v0 s : Rd) (hopen : first (fileNav rd) u = .ok v0)
+    (ops : List (Op T)) (hrun : run (fileNav rd) lt dist times steps ops v0 = .ok s) :
+    0 ≤ s.index ∧ s.index < rd.fulltimes.size :=
+  index_in_range (fileNav rd) (file_load_sets_index rd) lt dist times steps u v0 s hopen ops hrun
+
+open Model.Listing in
+/-- For every file, with only `Covers` left as a per-file hypothesis: `nav_view_eq_fresh` for the whole-file reader. -/
+theorem file_nav_view_eq_fresh (rd : Rd) (view : Rd → W) (hcov : Covers (fileNav rd) view)
+    (lt : T → T → Bool) (dist : T → T → T) (times : List T) (steps : List Int)
+    (u v0 s : Rd) (hopen : first (fileNav rd) u = .ok v0)
+    (ops : List (Op T)) (hrun : run (fileNav rd) lt dist times steps ops v0 = .ok s) :
+    ∃ f, setIndex (fileNav rd) s.index v0 = .ok f ∧ view f = view s ∧ f.index = s.index :=
+  nav_view_eq_fresh (fileNav rd) view hcov (file_load_sets_index rd) lt dist times steps u v0 s hopen ops hrun
+
+-- a two-result AUTOUGH2-style file (title, header line, column header, two rows, closing keyword) and its element table
+section fileExample
+open Model.Listing
+private def exRes (a b c d : String) : List Str := ["title\n".toList, " OUTPUT AFTER 1 TIME STEPS 0.5 SECONDS\n".toList, "x\n".toList,
+  "hdr\n".toList, "\n".toList, " ELEM INDEX P T\n".toList, "\n".toList, (" A 1  1  " ++ a ++ " " ++ b ++ "\n").toList,
+  (" B 1  2  " ++ c ++ " " ++ d ++ "\n").toList, " EEEEE\n".toList, "\n".toList, "zzz\n".toList]
+private def exR1 := exRes "1.5" "2.5" "3.5" "4.5"
+private def exR2 := exRes "5.5" "6.5" "7.5" "8.5"
+private def exTab : Table := { mkTable [['P'], ['T']] #[["A 1".toList], ["B 1".toList]] 1 false with keyPos := [1], numpos := [some 8] }
+private def exRd : Rd := {
+  all := exR1 ++ exR2
+  isOutputData := false
+  pos := ⟨0, exR1 ++ exR2⟩
+  fam := Fam.autough2
+  allpos := #[⟨0, exR1 ++ exR2⟩, ⟨12, exR2⟩]
+  fullpos := #[⟨0, exR1 ++ exR2⟩, ⟨12, exR2⟩]
+  short := #[false, false]
+  fulltimes := #[zero, zero]
+  times := #[zero, zero]
+  tables := [("element", exTab)] }
+-- (evaluated by the kernel) the reader opens, a sequence of actions runs, and ends at index 1 showing the second result's cells
+example : (match first (fileNav exRd) exRd with
+  | .ok v0 => (match run (fileNav exRd) (fun (a b : Int) => decide (a < b)) distInt [0, 5] [1, 2] [.last, .prev, .next, .next, .index (-1)] v0 with
+     | .ok s => s.index == 1 && (s.tables.map (fun nt => nt.2.data)) == [#[#[.fin false 55 (-1), .fin false 65 (-1)], #[.fin false 75 (-1), .fin false 85 (-1)]]]
+     | .error _ => false)
+  | .error _ => false) = true := by decide +kernel
+end fileExample
 
 /-! ### next and prev report whether they moved and never move past either end -/
 
